@@ -196,13 +196,15 @@ class AbsTime (V : Type) where
 
 instance {α : Type} [Add α] [Div α] [IntCast α] : AbsTime (Option α) := ⟨fun t => some (toAbsG t)⟩
 
-/-- an `Obs` object: position, `ObsTime` fields, `features` -/
+/-- an `Obs` object: position, `ObsTime` fields, `features`. `zone` is the eighth field of the `ObsTime` object: no
+feature program reads it (`toAbsTime()` and `t2 - t1` are functions of the seven calendar fields `t`) and none writes it -/
 structure WObs (V : Type) where
   x : V
   y : V
   z : V
   t : StampZ
   feats : List V
+  zone : Int := 0
 
 /-- a `Track` object: references to its observations and `__analyticalFeaturesDico` -/
 structure WTrk where
@@ -406,7 +408,9 @@ inductive WOp (V : Type)
   | slice (k a b : Nat)                       -- track[a:b]
   | copy (k : Nat)                            -- track.copy()
   | setPos (k i : Nat) (c : String) (v : V)   -- position.setX / setObsAnalyticalFeature("x", i, v) / position.E = v
-  | setTime (k i : Nat) (field : String) (v : Int)   -- track[i].timestamp.<field> = v
+  | setTime (k i : Nat) (field : String) (v : Int)   -- track[i].timestamp.<field> = v   (the seven calendar fields and `zone`)
+  | speedMethod (k : Nat)                     -- track.estimate_speed()   (the METHOD of core/track.py, kernel=None)
+  | setZone (k : Nat) (zone : Int)            -- track.setTimeZone(zone)
 
 inductive WRet (V : Type)
   | none
@@ -418,7 +422,7 @@ inductive WRet (V : Type)
 def WOp.track : WOp V → Nat
   | .absCurv k | .speed k | .speedAF k | .dsAF k | .integ k | .integExpr k | .diff k | .length k | .curvAbs k | .read k _
   | .remove k _ | .write k _ _ | .sorted k | .duration k | .times k | .add k _ | .extract k _ _ | .slice k _ _
-  | .copy k | .setPos k _ _ _ | .setTime k _ _ _ => k
+  | .copy k | .setPos k _ _ _ | .setTime k _ _ _ | .speedMethod k | .setZone k _ => k
 
 def _root_.TV.ObsTime.StampZ.setField (t : StampZ) (field : String) (v : Int) : Option StampZ :=
   if field == "year" then some { t with year := v.toNat }
@@ -442,6 +446,17 @@ def copyObs : List Nat → List (Nat × Nat) → List (WObs V) → List Nat → 
       | none => copyObs ids memo h acc
       | some ob => copyObs ids ((id, h.length) :: memo) (h ++ [ob]) (h.length :: acc)
 
+/-- `Track.estimate_speed(self, kernel=None)` of core/track.py: `if kernel is None: return estimate_speed(self)` — the
+function of algo/cinematics.py on the track itself, nothing before it (`kernel` given: `smoothed_speed_calculation`, another
+feature, not modelled) -/
+def estimateSpeedMethodT {σ : Type} [Tbl σ V] (g : GOps V) : M σ (List V) := estimateSpeedT g
+
+/-- `Track.setTimeZone(zone)`: `for i in range(len(self)): self[i].timestamp.zone = zone` — the `zone` field of the stamp of
+every observation the track references, in place (shared objects are seen by the sharing tracks) -/
+def setZoneIds (zone : Int) : List Nat → List (WObs V) → List (WObs V)
+  | [], h => h
+  | id :: ids, h => setZoneIds zone ids (h.modify id (fun ob => { ob with zone := zone }))
+
 def newTrack (w : World V) (t : WTrk) : Except Err (WRet V) × World V :=
   (.ok (.ids t.ids), { w with trks := w.trks ++ [t] })
 
@@ -456,6 +471,8 @@ def stepW [AbsTime V] (g : GOps V) (op : WOp V) : M (World V) (WRet V) := fun w0
     match op with
     | .absCurv _ => col (computeAbsCurvT g)
     | .speed _ => col (estimateSpeedT g)
+    | .speedMethod _ => col (estimateSpeedMethodT g)
+    | .setZone _ zone => (.ok .none, { w with heap := setZoneIds zone w.trk.ids w.heap })
     | .speedAF _ => col (addAFfn g.toOps (speedAlgT g) "speed")
     | .dsAF _ => col (addAFfn g.toOps (dsAlgT g) "ds")
     | .integ _ => col (unaryVoid g.toOps .integrator "ds" "abs_curv")
@@ -490,6 +507,8 @@ def stepW [AbsTime V] (g : GOps V) (op : WOp V) : M (World V) (WRet V) := fun w0
         match w.heap[id]? with
         | none => (.error .index, w)
         | some ob =>
+          if field == "zone" then (.ok .none, { w with heap := w.heap.set id { ob with zone := v } })
+          else
           match ob.t.setField field v with
           | none => (.error .unsupported, w0)
           | some t' => (.ok .none, { w with heap := w.heap.set id { ob with t := t' } })
